@@ -192,6 +192,10 @@ func (ex *Exec) initialArrayAxioms(name, v string, s Sort, entry bool) {
 		ex.emit("(assert (forall ((a Int)) (! (>= (select %s a) 0) :pattern ((select %s a)))))", v, v)
 		ex.emit("(assert (= (select %s 0) 0))", v)
 	}
+	if strings.HasPrefix(name, "MV_") && entry && ex.mapPtrValued[name] {
+		ks := ex.mapKeySort[name]
+		ex.emit("(assert (forall ((m Int) (k %s)) (! (=> (<= (root m) allocbase) (<= (root (select (select %s m) k)) allocbase)) :pattern ((select (select %s m) k)))))", ks, v, v)
+	}
 	if strings.HasPrefix(name, "MH_") {
 		// nil map has no keys
 		ks := ex.mapKeySort[name]
@@ -292,6 +296,10 @@ func (ex *Exec) mapArrays(mt *types.Map) (has, val string, ks, vs Sort) {
 	has = "MH_" + sortID(ks)
 	val = "MV_" + sortID(ks) + "_" + sortID(vs)
 	ex.mapKeySort[has] = ks
+	ex.mapKeySort[val] = ks
+	if isPointerLike(mt.Elem()) {
+		ex.mapPtrValued[val] = true
+	}
 	ex.arraySort(has, Sort(fmt.Sprintf("(Array Int (Array %s Bool))", ks)))
 	ex.arraySort(val, Sort(fmt.Sprintf("(Array Int (Array %s %s))", ks, vs)))
 	ex.arraySort("ML", "(Array Int Int)")
@@ -329,6 +337,7 @@ func (ex *Exec) mapDelete(m *MemState, mt *types.Map, ref, key string) {
 	h := ex.memGet(m, has)
 	l := ex.memGet(m, "ML")
 	had := fmt.Sprintf("(select (select %s %s) %s)", h, ref, key)
+	ex.emit("(assert (=> %s (>= (select %s %s) 1)))", had, l, ref) // a map holding a key has at least one entry
 	ex.memSet(m, "ML", fmt.Sprintf("(store %s %s (ite %s (- (select %s %s) 1) (select %s %s)))", l, ref, had, l, ref, l, ref))
 	ex.memSet(m, has, fmt.Sprintf("(store %s %s (store (select %s %s) %s false))", h, ref, h, ref, key))
 }
